@@ -44,6 +44,7 @@ type rewriter struct {
 	targets []ast.Node // nodes with a rewrite, sorted by position (pre-order)
 	usedVs  bool
 	extra   map[string]string // import path -> replacement path (adoption)
+	mapNames map[string]bool  // identifiers / field names declared with a map type in this package
 	skipSel map[ast.Node]bool // comm statements handled by their select
 	recv2   map[ast.Node]bool // unary recv expressions in a 2-value context
 }
@@ -76,7 +77,16 @@ func (r *rewriter) collect() {
 			if id, ok := n.Fun.(*ast.Ident); ok && id.Name == "close" && len(n.Args) == 1 {
 				r.targets = append(r.targets, n)
 			}
+		case *ast.RangeStmt:
+			if r.isMapExpr(n.X) {
+				r.targets = append(r.targets, n)
+			}
 		case *ast.AssignStmt:
+			if len(n.Lhs) == 1 && len(n.Rhs) == 1 && n.Tok == token.ASSIGN {
+				if ix, ok := n.Lhs[0].(*ast.IndexExpr); ok && r.isMapExpr(ix.X) {
+					r.targets = append(r.targets, n)
+				}
+			}
 			if len(n.Lhs) == 2 && len(n.Rhs) == 1 {
 				if u, ok := n.Rhs[0].(*ast.UnaryExpr); ok && u.Op == token.ARROW {
 					r.recv2[u] = true
@@ -198,6 +208,43 @@ func (r *rewriter) rewrite(n ast.Node) string {
 	case *ast.SelectStmt:
 		r.usedVs = true
 		return r.rewriteSelect(n)
+	case *ast.AssignStmt: // m[k] = v on a known map: register the key (deterministic iteration order)
+		r.usedVs = true
+		ix := n.Lhs[0].(*ast.IndexExpr)
+		return "__vs.MapSet(" + r.node(ix.X) + ", " + r.node(ix.Index) + ", " + r.node(n.Rhs[0]) + ")"
+	case *ast.RangeStmt:
+		r.usedVs = true
+		m := r.node(n.X)
+		key := "__mk"
+		pre := ""
+		if id, ok := n.Key.(*ast.Ident); ok && n.Key != nil && id.Name != "_" {
+			if n.Tok == token.DEFINE {
+				key = id.Name
+			} else {
+				pre += " " + id.Name + " = __mk;"
+			}
+		} else if n.Key != nil {
+			if _, ok := n.Key.(*ast.Ident); !ok {
+				pre += " " + r.node(n.Key) + " = __mk;"
+			}
+		}
+		if n.Value != nil {
+			if id, ok := n.Value.(*ast.Ident); !ok || id.Name != "_" {
+				op := ":="
+				if n.Tok != token.DEFINE {
+					op = "="
+				}
+				if op == ":=" {
+					pre += " " + r.node(n.Value) + ", __ok := (" + m + ")[" + key + "]; if !__ok { continue };"
+				} else {
+					pre += " if __v, __ok := (" + m + ")[" + key + "]; !__ok { continue } else { " + r.node(n.Value) + " = __v };"
+				}
+			}
+		}
+		if pre == "" || n.Value == nil {
+			pre += " if _, __ok := (" + m + ")[" + key + "]; !__ok { continue };"
+		}
+		return "for _, " + key + " := range __vs.MapKeys(" + m + ") {" + pre + r.inner(n.Body.Lbrace+1, n.Body.End(), nil)
 	}
 	panic("unexpected target")
 }
@@ -265,6 +312,68 @@ func (r *rewriter) rewriteSelect(n *ast.SelectStmt) string {
 	return b.String()
 }
 
+func (r *rewriter) isMapExpr(e ast.Expr) bool {
+	switch x := unparen(e).(type) {
+	case *ast.Ident:
+		return r.mapNames[x.Name]
+	case *ast.SelectorExpr:
+		return r.mapNames[x.Sel.Name]
+	}
+	return false
+}
+
+// collectMapNames gathers (syntactically) the names declared with a map type
+// in a parsed file: struct fields, variables, parameters, make(map...) locals.
+func collectMapNames(f *ast.File, out map[string]bool) {
+	isMap := func(t ast.Expr) bool { _, ok := t.(*ast.MapType); return ok }
+	ast.Inspect(f, func(n ast.Node) bool {
+		switch n := n.(type) {
+		case *ast.Field:
+			if n.Type != nil && isMap(n.Type) {
+				for _, id := range n.Names {
+					out[id.Name] = true
+				}
+			}
+		case *ast.ValueSpec:
+			if n.Type != nil && isMap(n.Type) {
+				for _, id := range n.Names {
+					out[id.Name] = true
+				}
+			}
+			for i, v := range n.Values {
+				if i < len(n.Names) && isMakeMap(v) {
+					out[n.Names[i].Name] = true
+				}
+			}
+		case *ast.AssignStmt:
+			if n.Tok == token.DEFINE {
+				for i, v := range n.Rhs {
+					if i < len(n.Lhs) && isMakeMap(v) {
+						if id, ok := n.Lhs[i].(*ast.Ident); ok {
+							out[id.Name] = true
+						}
+					}
+				}
+			}
+		}
+		return true
+	})
+}
+
+func isMakeMap(e ast.Expr) bool {
+	switch v := e.(type) {
+	case *ast.CallExpr:
+		if id, ok := v.Fun.(*ast.Ident); ok && id.Name == "make" && len(v.Args) > 0 {
+			_, ok := v.Args[0].(*ast.MapType)
+			return ok
+		}
+	case *ast.CompositeLit:
+		_, ok := v.Type.(*ast.MapType)
+		return ok
+	}
+	return false
+}
+
 func unparen(e ast.Expr) ast.Expr {
 	for {
 		p, ok := e.(*ast.ParenExpr)
@@ -275,7 +384,7 @@ func unparen(e ast.Expr) ast.Expr {
 	}
 }
 
-func instrumentFile(path string, extra map[string]string) ([]byte, error) {
+func instrumentFile(path string, extra map[string]string, mapNames map[string]bool) ([]byte, error) {
 	src, err := os.ReadFile(path)
 	if err != nil {
 		return nil, err
@@ -285,7 +394,7 @@ func instrumentFile(path string, extra map[string]string) ([]byte, error) {
 	if err != nil {
 		return nil, err
 	}
-	r := &rewriter{fset: fset, src: src, file: f, extra: extra}
+	r := &rewriter{fset: fset, src: src, file: f, extra: extra, mapNames: mapNames}
 	r.collect()
 	// comm statements of select clauses are rewritten by their select: drop the
 	// nested targets that are exactly those statements.
@@ -376,6 +485,16 @@ func main() {
 			fmt.Fprintf(os.Stderr, "INFRA: instr: %v\n", err)
 			os.Exit(2)
 		}
+		mapNames := map[string]bool{}
+		for _, e := range ents {
+			name := e.Name()
+			if e.IsDir() || !strings.HasSuffix(name, ".go") || strings.HasSuffix(name, "_test.go") {
+				continue
+			}
+			if pf, err := parser.ParseFile(token.NewFileSet(), filepath.Join(j.srcDir, name), nil, parser.SkipObjectResolution); err == nil {
+				collectMapNames(pf, mapNames)
+			}
+		}
 		for _, e := range ents {
 			name := e.Name()
 			if e.IsDir() || !strings.HasSuffix(name, ".go") {
@@ -388,7 +507,7 @@ func main() {
 				}
 				continue
 			}
-			data, err := instrumentFile(filepath.Join(j.srcDir, name), ex)
+			data, err := instrumentFile(filepath.Join(j.srcDir, name), ex, mapNames)
 			if err != nil {
 				fmt.Fprintf(os.Stderr, "INFRA: instr: %s: %v\n", name, err)
 				os.Exit(2)
